@@ -8,7 +8,7 @@ use crate::{for_both, hx, Ctx, Tier};
 use blsful::*;
 use serde_json::json;
 
-pub const RULE: &str = "n in {2,3,8,64} (quick) / every n in 2..=64 (thorough) x {ProofOfPossession, Basic} x 2 groups x messages from the length classes: n fresh keys sign one message; accumulation (always through BOTH doors, MultiSignature::from_signatures and TryFrom<&[Signature]>, which must agree; an acceptance through either counts) must equal the reference group sum (bytes), also when one part occurs twice (front / middle / end) and MultiPublicKey::from_public_keys the key sum; (msig, mpk, msg) must verify (library and reference); omission of each signer, addition of one, replacement of each (every position for n<=16, 8 sampled above) and another message must fail, each also decided by the reference under the summed key; the accumulated key built from the signer list in another order must still verify. Accumulation refusal: all 3^n scheme assignments for n in {2,3}, MessageAugmentation at every position for n in {4,8}, sizes 0 and 1. Distinct by (suite, scheme, variant, mpk, msig, msg); non-trivial = pairing equation decides (points decode, none is the identity).";
+pub const RULE: &str = "n in {2,3,8,64} (quick) / every n in 2..=64 (thorough) x {ProofOfPossession, Basic} x 2 groups x messages from the length classes: n fresh keys sign one message; accumulation (always through BOTH doors, MultiSignature::from_signatures and TryFrom<&[Signature]>, which must agree; an acceptance through either counts) must equal the reference group sum (bytes), also when one part occurs twice (front / middle / end) and MultiPublicKey::from_public_keys the key sum; (msig, mpk, msg) must verify (library and reference); omission of each signer, addition of one, replacement of each (every position for n<=16, 8 sampled above) and another message must fail, each also decided by the reference under the summed key; the accumulated key built from the signer list in another order must still verify. Accumulation refusal: all 3^n scheme assignments for n in {2,3}, MessageAugmentation at every position for n in {4,8}, sizes 0 and 1. History clusters (2 quick / 8 thorough per group): for three signers the multi-signature of each scheme against the exact signer set (two orders), a missing / added / replaced signer, another message and each other label, asked in ordered pairs (a,b) as a,b,b,a with the reference's answers. Distinct by (suite, scheme, variant, mpk, msig, msg); non-trivial = pairing equation decides (points decode, none is the identity).";
 
 pub fn run(ctx: &mut Ctx) {
     for_both!(run_suite, ctx);
@@ -44,6 +44,13 @@ fn run_suite<C: Suite>(ctx: &mut Ctx) {
     g += 1;
     if ctx.mine(g) {
         refusal::<C>(ctx, g);
+    }
+    ctx.require(&format!("{n}/history"));
+    for i in 0..ctx.tier.pick(2, 8) {
+        g += 1;
+        if ctx.mine(g) {
+            history_cluster::<C>(ctx, g, i);
+        }
     }
 }
 
@@ -227,4 +234,53 @@ fn refusal<C: Suite>(ctx: &mut Ctx, g: u64) {
         }
     }
     ctx.exhaustive.push("MultiSignature::from_signatures scheme assignments for n in {2,3} (3^n each), sizes 0,1".into());
+}
+
+/// Three signers over one message: the multi-signature of Basic and of ProofOfPossession against
+/// the accumulated key of exactly the signers (two orders), with one missing / added / replaced,
+/// another message, and under every other label - asked in ordered pairs as a, b, b, a with the
+/// reference's answers (under its own sum of the listed keys).
+fn history_cluster<C: Suite>(ctx: &mut Ctx, g: u64, i: usize) {
+    use super::history::{family_pairs, q, sandwich_pairs, Q};
+    let mut rng = ctx.rng(g);
+    let n = C::NAME;
+    let keys: Vec<_> = (0..3).map(|_| gen::random_scalar(&mut rng)).collect();
+    let sks: Vec<SecretKey<C>> = keys.iter().map(sk_from_rs::<C>).collect();
+    let pks: Vec<PublicKey<C>> = sks.iter().map(|s| s.public_key()).collect();
+    let extra = sk_from_rs::<C>(&gen::random_scalar(&mut rng)).public_key();
+    let msg = gen::message([32usize, 0, 7, 100][i % 4], Content::Random, &mut rng);
+    let mut msg2 = msg.clone();
+    msg2.push(1);
+    type A = Option<Vec<u8>>;
+    let verdict = |b: bool| -> A { Some(vec![b as u8]) };
+    let mut qs: Vec<Q<A>> = Vec::new();
+    for s1 in [Scheme::Pop, Scheme::Basic] {
+        let Ok(sigs) = sks.iter().map(|s| s.sign(lscheme(s1), &msg)).collect::<Result<Vec<Signature<C>>, _>>() else { return };
+        let Ok(ms) = multi_from::<C>(&sigs) else { return };
+        let msb = enc_pt(ms.as_raw_value());
+        let mut lists: Vec<(String, Vec<PublicKey<C>>, Vec<u8>)> = vec![("honest".into(), pks.clone(), msg.clone())];
+        let mut l = pks.clone(); l.reverse(); lists.push(("reversed".into(), l, msg.clone()));
+        lists.push(("signer-missing".into(), pks[..2].to_vec(), msg.clone()));
+        let mut l = pks.clone(); l.push(extra); lists.push(("signer-added".into(), l, msg.clone()));
+        let mut l = pks.clone(); l[1] = extra; lists.push(("signer-replaced".into(), l, msg.clone()));
+        lists.push(("other-message".into(), pks.clone(), msg2.clone()));
+        let fam = format!("made-{}", s1.name());
+        for (ln, l, m) in lists {
+            let rsum = refimpl::sum(l.iter().map(|k| rpk_of::<C>(k)));
+            let want = refimpl::verify::<C::R>(s1, &rsum.enc(), &msb, &m);
+            qs.push(q(format!("{fam}/{ln}"), verdict(want), move || verdict(ms.verify(MultiPublicKey::<C>::from_public_keys(&l), &m).is_ok())));
+        }
+        for s2 in s1.others() {
+            let re = wrap_multi::<C>(s2, *ms.as_raw_value());
+            let rsum = refimpl::sum(pks.iter().map(|k| rpk_of::<C>(k)));
+            let want = refimpl::verify::<C::R>(s2, &rsum.enc(), &msb, &msg);
+            let (l, m) = (pks.clone(), msg.clone());
+            qs.push(q(format!("{fam}/label-{}", s2.name()), verdict(want), move || verdict(re.verify(MultiPublicKey::<C>::from_public_keys(&l), &m).is_ok())));
+        }
+    }
+    let pairs = family_pairs(&qs, ctx.tier.pick(60, 200), &mut rng);
+    let d = || json!({"suite":n,"keys":keys.iter().map(|k| hex::encode(k.to_be_bytes())).collect::<Vec<_>>(),"msg":crate::hx(&msg),"note":"verdicts answer [1]/[0]; the answers on their own are the reference's"});
+    let mut cid = keys[0].to_be_bytes().to_vec();
+    cid.extend_from_slice(&msg);
+    sandwich_pairs(ctx, "C07", &format!("{n}/history"), "signer-sets", &cid, &d, &qs, &pairs);
 }
